@@ -879,7 +879,11 @@ func (e *encoder[T]) kMapCanonical(ti *typeInfo, rv, rvv reflect.Value, keyFn, v
 			for i := range mksv {
 				e.c = containerMapKey
 				e.e.WriteMapElemKey(i == 0)
-				e.e.EncodeTime(mksv[i].v)
+				if e.h.timeBuiltin {
+					e.e.EncodeTime(mksv[i].v)
+				} else { // TimeNotBuiltin: written as encFnLoad chooses, like every other time.Time
+					e.encodeValue(mksv[i].r, keyFn)
+				}
 				e.mapElemValue()
 				e.encodeValue(mapGet(rv, mksv[i].r, rvv, mparams), valFn)
 			}
@@ -1145,7 +1149,11 @@ func (e *encoder[T]) encodeBuiltin(iv interface{}) (ok bool) {
 	case complex128:
 		e.encodeComplex128(v)
 	case time.Time:
-		e.e.EncodeTime(v)
+		if e.h.timeBuiltin {
+			e.e.EncodeTime(v)
+		} else { // TimeNotBuiltin: what encFnLoad chooses (extension, marshaler), in every position
+			e.encodeR(reflect.ValueOf(v))
+		}
 	case []byte:
 		e.e.EncodeBytes(v) // e.e.EncodeStringBytesRaw(v)
 	default:
